@@ -71,15 +71,52 @@ func (a *c02) anchors() bool {
 		c.Unk("C02.R1", "geom.(Point).Within", token.NoPos, "API anchor does not resolve")
 		return false
 	}
-	// Point.Within returns f(p, poly)
-	ast.Inspect(fd.Body, func(n ast.Node) bool {
-		if call, ok := n.(*ast.CallExpr); ok && len(call.Args) == 2 {
-			if f := callee(a.info, call); f != nil && c.P.Decl(f) != nil {
-				a.polyal = f
-			}
+	// Point.Within hands the point and the polygonal argument to a classifier: a function without a
+	// receiver taking (Point, <interface>) and returning a WithinStatus, reached directly or through
+	// forwarding helpers
+	isClassifier := func(f *types.Func) bool {
+		sig := f.Type().(*types.Signature)
+		if sig.Recv() != nil || sig.Params().Len() != 2 || sig.Results().Len() != 1 {
+			return false
 		}
-		return true
-	})
+		_, iface := sig.Params().At(1).Type().Underlying().(*types.Interface)
+		return iface && types.Identical(sig.Params().At(0).Type(), a.ptT) && types.Identical(sig.Results().At(0).Type(), a.wsT)
+	}
+	seen := map[*types.Func]bool{m: true}
+	frontier := []*types.Func{m}
+	for depth := 0; depth < 4 && a.polyal == nil && len(frontier) > 0; depth++ {
+		var next []*types.Func
+		for _, g := range frontier {
+			gd := c.P.Decl(g)
+			if gd == nil || gd.Body == nil {
+				continue
+			}
+			ast.Inspect(gd.Body, func(n ast.Node) bool {
+				if call, ok := n.(*ast.CallExpr); ok {
+					if f := callee(c.P.InfoOf(g), call); f != nil && c.P.Decl(f) != nil && !seen[f] {
+						seen[f] = true
+						if isClassifier(f) && a.polyal == nil {
+							a.polyal = f
+						}
+						next = append(next, f)
+					}
+				}
+				return true
+			})
+		}
+		frontier = next
+	}
+	if a.polyal == nil {
+		// the older form of the anchor: whatever two-argument repository function Within calls
+		ast.Inspect(fd.Body, func(n ast.Node) bool {
+			if call, ok := n.(*ast.CallExpr); ok && len(call.Args) == 2 {
+				if f := callee(a.info, call); f != nil && c.P.Decl(f) != nil {
+					a.polyal = f
+				}
+			}
+			return true
+		})
+	}
 	if a.polyal == nil {
 		c.Unk("C02.R1", "geom.(Point).Within", fd.Pos(), "does not delegate to a (Point, Polygonal) classifier")
 		return false
